@@ -3,7 +3,7 @@
 //! A *scene* is pure data (`Scene`): manager settings, main-track effects and a list of operations
 //! (play static / streaming / probe sounds, add sub / send / spatial tracks with every built-in effect,
 //! clocks, LFOs, tweeners, probe modulators, listeners, commands on random handles incl. effect
-//! handles, handle drops, device callbacks).  It is executed on the REAL kira code through the public API;
+//! handles, handle drops, device sample-rate changes, device callbacks).  It is executed on the REAL kira code through the public API;
 //! the `Renderer` lives on a dedicated audio thread, so "on the audio thread" is literal:
 //!   * heap allocations / frees are counted on that thread while a callback runs,
 //!   * probe sounds / effects / modulators record the thread on which their `Drop` ran,
@@ -11,6 +11,12 @@
 //!     lengths and the mixer bus, which are compared with the Coq model (`C01/Run.v`).
 //! Monitors per callback: outcome (ok / panic / hang by watchdog), heap traffic, `Drop` thread,
 //! every sample written, finite, in [-1, 1], extra channels silent, chunk sequence.
+//! Since the output stage replaces NaN by silence (`finite_clamped` in backend/renderer.rs) a
+//! non-finite sample in the device buffer is a plain violation whatever the (finite) arguments:
+//! the former NaN findings (F5, F29, F33, F36 NaN half, F37, F38, F39) are no longer classes of
+//! this property; their witnesses are kept as regression scenes that must render finite output.
+//! The classes left are the ones whose observable is a callback that does not return (F7, F8, F34,
+//! F36 through a rate / clock speed, F40).
 //!
 //! Attribution of a failure to a known finding is COUNTERFACTUAL: the scene must contain the
 //! finding's trigger (a predicate on the scene data, see `classes()`), the observed failure must be
@@ -49,17 +55,12 @@ use std::time::Duration;
 
 /// classes of known findings (see known_findings.json); each has a trigger predicate and a
 /// neutraliser in `classes()`
-const HZ_GAIN: &str = "gain_amplitude_overflow";
 const HZ_CLOCK: &str = "clock_speed_tick_loop_diverges";
 const HZ_RATE: &str = "playback_rate_loop_diverges";
-const HZ_SAMPLES: &str = "source_samples_overflow_interpolation";
-const HZ_PARAM: &str = "effect_parameter_outside_documented_range";
 const HZ_RATE_COST: &str = "playback_rate_cost_unbounded";
 const HZ_EASING: &str = "easing_power_negative";
-const HZ_CHAIN: &str = "gain_chain_overflow";
-const HZ_COMP_THR: &str = "compressor_threshold_infinite_f32";
-const HZ_EQ_GAIN: &str = "eq_gain_underflow";
 const HZ_SEEK: &str = "seek_beyond_loop_cost_unbounded";
+const HZ_RESYNC: &str = "resync_reallocates_delay_lines_in_callback";
 
 // ------------------------------------------------------------------------------------------------
 // scene description (pure data)
@@ -117,15 +118,6 @@ impl FramesSpec {
 				Frame::new(x, if r.chance(1, 4) { -x } else { x })
 			})
 			.collect()
-	}
-	fn max_abs(&self) -> f32 {
-		match self.kind {
-			6 => 3e38,
-			5 => 8.0,
-			8 => self.n as f32 / 16.0,
-			7 => 0.0,
-			_ => 1.0,
-		}
 	}
 }
 #[derive(Clone, Debug, PartialEq)]
@@ -192,6 +184,9 @@ enum Op {
 	Cmd(CmdSpec),
 	DropHandle { sel: u64 },
 	Callback { frames: usize, ch: u16 },
+	/// the device sample rate changes: `Renderer::on_change_sample_rate` on the audio thread, between two
+	/// callbacks (it may allocate: it is not a callback, and is not counted)
+	RateChange { sr: u32 },
 }
 #[derive(Clone, Debug, PartialEq)]
 struct Scene {
@@ -457,10 +452,12 @@ fn build_fx(fx: &Fx, hs: &[H], log: &Arc<ProbeLog>, keep: Option<&mut Vec<H>>) -
 
 enum AReq {
 	Cb { out: Vec<f32>, ch: u16 },
+	Rate(u32),
 	Quit,
 }
 enum AResp {
 	Cb { out: Vec<f32>, allocs: u64, frees: u64, panic: Option<String> },
+	Rate(Option<String>),
 	Quit(Box<Renderer>),
 }
 /// the audio thread: owns the `Renderer`; heap traffic is counted on this thread only while a
@@ -489,6 +486,13 @@ impl Audio {
 						});
 						let panic = if res.is_err() { Some(last_panic()) } else { None };
 						if atx.send(AResp::Cb { out, allocs, frees, panic }).is_err() {
+							return;
+						}
+					}
+					AReq::Rate(sr) => {
+						let res = std::panic::catch_unwind(std::panic::AssertUnwindSafe(|| r.on_change_sample_rate(sr)));
+						let panic = if res.is_err() { Some(last_panic()) } else { None };
+						if atx.send(AResp::Rate(panic)).is_err() {
 							return;
 						}
 					}
@@ -551,6 +555,7 @@ fn exec_scene(sc: &Scene, want_cases: bool) -> SceneResult {
 		}
 	};
 	let audio = Audio::start(m.backend_mut().renderer.take().unwrap());
+	let mut cur_sr = sc.sr;
 	let check_drops = |log: &ProbeLog, seen: &mut usize| -> Option<String> {
 		let d = log.drops.lock().unwrap();
 		*seen = d.len();
@@ -689,7 +694,7 @@ fn exec_scene(sc: &Scene, want_cases: bool) -> SceneResult {
 					if let Some(lid) = hs.iter().find_map(|h| if let H::Listener(l) = h { Some(l.id()) } else { None }) {
 						let b = SpatialTrackBuilder::new().volume(Decibels(*vol)).distances((*d0, *d1)).spatialization_strength(*strength).attenuation_function(*atten);
 						if let Ok(mut t) = m.add_spatial_sub_track(lid, *pos, b) {
-							let _ = t.play(sound_from_frames(sc.sr, frames.expand()));
+							let _ = t.play(sound_from_frames(cur_sr, frames.expand()));
 							hs.push(H::Spatial(t));
 						}
 					}
@@ -792,6 +797,14 @@ fn exec_scene(sc: &Scene, want_cases: bool) -> SceneResult {
 						hs.swap_remove(i);
 					}
 				}
+				Op::RateChange { sr } => {
+					audio.tx.send(AReq::Rate(*sr)).unwrap();
+					match audio.rx.recv() {
+						Ok(AResp::Rate(None)) => cur_sr = *sr,
+						Ok(AResp::Rate(Some(p))) => return Some(("panic", format!("Renderer::on_change_sample_rate panicked: {p}"))),
+						_ => return Some(("panic", "the audio thread died".into())),
+					}
+				}
 				Op::Callback { frames, ch } => {
 					let (frames, ch) = (*frames, *ch);
 					log.reset();
@@ -891,48 +904,6 @@ fn run_watchdog(sc: &Scene, want_cases: bool, secs: f64) -> Option<SceneResult> 
 // classes of known findings: trigger predicate + neutraliser (one function: it rewrites the
 // trigger to a benign documented value and says whether it found one)
 // ------------------------------------------------------------------------------------------------
-fn amp(db: f32) -> f32 {
-	10.0f32.powf(db / 20.0)
-}
-fn for_each_fx(sc: &mut Scene, f: &mut dyn FnMut(&mut Fx)) {
-	for fx in sc.main_fx.iter_mut() {
-		f(fx);
-	}
-	for op in sc.ops.iter_mut() {
-		if let Op::AddSub(s) = op {
-			for fx in s.fx.iter_mut() {
-				f(fx);
-			}
-		}
-	}
-}
-/// every argument of type `Decibels` in the scene
-fn for_each_db(sc: &mut Scene, f: &mut dyn FnMut(&mut f32)) {
-	f(&mut sc.main_vol);
-	for_each_fx(sc, &mut |fx| match fx {
-		Fx::Eq { gain, .. } => f(gain),
-		Fx::Delay { fb, .. } => f(fb),
-		Fx::Compressor { makeup, .. } => f(makeup),
-		Fx::Distortion { drive, .. } => f(drive),
-		Fx::Volume(d) => f(d),
-		_ => {}
-	});
-	for op in sc.ops.iter_mut() {
-		match op {
-			Op::Play(p) => f(&mut p.vol),
-			Op::AddSub(s) => {
-				f(&mut s.vol);
-				if let Some(v) = &mut s.send {
-					f(v);
-				}
-			}
-			Op::AddSend { vol, .. } => f(vol),
-			Op::AddSpatial { vol, .. } => f(vol),
-			Op::Cmd(c) => f(&mut c.db),
-			_ => {}
-		}
-	}
-}
 fn for_each_easing(sc: &mut Scene, f: &mut dyn FnMut(&mut Easing)) {
 	for op in sc.ops.iter_mut() {
 		match op {
@@ -947,12 +918,16 @@ fn for_each_easing(sc: &mut Scene, f: &mut dyn FnMut(&mut Easing)) {
 		}
 	}
 }
+/// the lowest device sample rate in force at any time in the scene
+fn min_sr(sc: &Scene) -> u32 {
+	sc.ops.iter().filter_map(|o| if let Op::RateChange { sr } = o { Some(*sr) } else { None }).chain(std::iter::once(sc.sr)).min().unwrap().max(1)
+}
 fn max_ssr(sc: &Scene) -> u32 {
 	sc.ops.iter().filter_map(|o| if let Op::Play(p) = o { Some(p.ssr.max(1)) } else { None }).max().unwrap_or(sc.sr)
 }
 /// playback rates with the number of source frames they skip per device frame
 fn for_each_rate(sc: &mut Scene, f: &mut dyn FnMut(&mut f64, f64)) {
-	let (sr, mx) = (sc.sr as f64, max_ssr(sc) as f64);
+	let (sr, mx) = (min_sr(sc) as f64, max_ssr(sc) as f64);
 	for op in sc.ops.iter_mut() {
 		match op {
 			Op::Play(p) => {
@@ -991,151 +966,8 @@ struct Class {
 	neutralise: fn(&mut Scene) -> bool,
 }
 
-/// F29: a source sample so large that the Hermite interpolator (frame.rs interpolate_frame: sums
-/// of up to 12 x max|sample|) can overflow
-fn neut_samples(sc: &mut Scene) -> bool {
-	let mut hit = false;
-	for op in sc.ops.iter_mut() {
-		let fr = match op {
-			Op::Play(p) => &mut p.frames,
-			Op::AddSpatial { frames, .. } => frames,
-			_ => continue,
-		};
-		if fr.max_abs() >= f32::MAX / 12.0 {
-			fr.kind = 5;
-			hit = true;
-		}
-	}
-	hit
-}
-/// F5: a single `Decibels` argument whose amplitude 10^(dB/20) is infinite in f32
-fn neut_gain(sc: &mut Scene) -> bool {
-	let mut hit = false;
-	for_each_db(sc, &mut |d| {
-		if amp(*d).is_infinite() {
-			*d = 0.0;
-			hit = true;
-		}
-	});
-	hit
-}
-/// F37: gains that are finite one by one but whose product with the largest source sample overflows f32
-fn neut_chain(sc: &mut Scene) -> bool {
-	let mut total = 0.0f64;
-	for_each_db(sc, &mut |d| {
-		if *d > 24.0 && amp(*d).is_finite() {
-			total += *d as f64;
-		}
-	});
-	let mut mx = 1.0f32;
-	for op in sc.ops.iter() {
-		match op {
-			Op::Play(PlaySpec { frames, .. }) | Op::AddSpatial { frames, .. } => mx = mx.max(frames.max_abs()),
-			_ => {}
-		}
-	}
-	if total + 20.0 * (mx as f64).log10() < 770.0 {
-		return false;
-	}
-	for_each_db(sc, &mut |d| {
-		if *d > 24.0 && amp(*d).is_finite() {
-			*d = 24.0;
-		}
-	});
-	true
-}
-/// F33: an effect parameter outside the range its doc comment states, one sub-trigger per parameter
-/// so that the attribution names the parameter.  Ranges taken from the doc comments:
-///   reverb feedback "1.0 gives an infinitely reverberating room", stereo width "0.0 being fully mono,
-///   1.0 being fully stereo" (effect/reverb/builder.rs), damping (same unit range; listed by F33);
-///   compressor ratio: only ratios above 0 are described ("Ratios between 0.0 and 1.0 will actually
-///   expand the audio", effect/compressor/builder.rs); delay feedback with a loop gain >= 1 (>= 0 dB; listed by F33).
-/// Deliberately NOT triggers (kira clamps them, so they cannot be the cause of a failure; a failure
-/// in a scene that merely contains one of these is reported unattributed): Mix outside [0,1]
-/// (`.clamp(0.0, 1.0)` in every effect), filter resonance (`.clamp(0.0, 1.0)`), cutoff / EQ frequency
-/// (`.clamp(0.0001, 0.5)` relative to the sample rate), EQ q <= 0 (`q.max(MIN_Q)`), low device sample rates.
-fn out_unit(x: f64) -> bool {
-	!(0.0..=1.0).contains(&x)
-}
-fn neut_comp_ratio(sc: &mut Scene) -> bool {
-	let mut hit = false;
-	for_each_fx(sc, &mut |fx| {
-		if let Fx::Compressor { ratio, .. } = fx {
-			// <= 0 once cast to f32, or so large that a tween from it to an ordinary ratio cancels to exactly 0
-			if !((*ratio as f32) > 0.0) || ratio.abs() >= 1e15 {
-				*ratio = 2.0;
-				hit = true;
-			}
-		}
-	});
-	hit
-}
-fn neut_reverb_fb(sc: &mut Scene) -> bool {
-	let mut hit = false;
-	for_each_fx(sc, &mut |fx| {
-		if let Fx::Reverb { fb, .. } = fx {
-			if out_unit(*fb) {
-				*fb = 0.5;
-				hit = true;
-			}
-		}
-	});
-	hit
-}
-fn neut_reverb_damp(sc: &mut Scene) -> bool {
-	let mut hit = false;
-	for_each_fx(sc, &mut |fx| {
-		if let Fx::Reverb { damp, .. } = fx {
-			if out_unit(*damp) {
-				*damp = 0.5;
-				hit = true;
-			}
-		}
-	});
-	hit
-}
-fn neut_reverb_width(sc: &mut Scene) -> bool {
-	let mut hit = false;
-	for_each_fx(sc, &mut |fx| {
-		if let Fx::Reverb { width, .. } = fx {
-			if out_unit(*width) {
-				*width = 0.5;
-				hit = true;
-			}
-		}
-	});
-	hit
-}
-fn neut_delay_fb(sc: &mut Scene) -> bool {
-	let mut hit = false;
-	for_each_fx(sc, &mut |fx| {
-		if let Fx::Delay { fb, .. } = fx {
-			if *fb >= 0.0 {
-				*fb = -6.0;
-				hit = true;
-			}
-		}
-	});
-	hit
-}
-/// reverb feedback / damping / stereo width outside [0,1] set later through a kept reverb handle
-fn neut_cmd_unit(sc: &mut Scene) -> bool {
-	let mut hit = false;
-	let reverb_handle = sc.ops.iter().any(|o| matches!(o, Op::AddSub(s) if s.keep_fx_handles && s.fx.iter().any(|f| matches!(f, Fx::Reverb { .. }))));
-	if !reverb_handle {
-		return false;
-	}
-	for op in sc.ops.iter_mut() {
-		if let Op::Cmd(c) = op {
-			if out_unit(c.u) {
-				c.u = 0.5;
-				hit = true;
-			}
-		}
-	}
-	hit
-}
-/// F36: a power-curve easing with a negative power (Easing::apply then maps [0,1] to [1, inf])
+/// F36 (its hang half): a power-curve easing with a negative power (Easing::apply then maps [0,1] to
+/// [1, inf]); through set_playback_rate / a clock speed the carry loops reach 2^53
 fn neut_easing(sc: &mut Scene) -> bool {
 	let mut hit = false;
 	for_each_easing(sc, &mut |e| {
@@ -1144,40 +976,6 @@ fn neut_easing(sc: &mut Scene) -> bool {
 			hit = true;
 		}
 	});
-	hit
-}
-/// F38: a compressor threshold that is infinite once cast to f32 (`self.threshold.value() as f32`)
-fn neut_comp_thr(sc: &mut Scene) -> bool {
-	let mut hit = false;
-	for_each_fx(sc, &mut |fx| {
-		if let Fx::Compressor { thr, .. } = fx {
-			if (*thr as f32).is_infinite() {
-				*thr = -20.0;
-				hit = true;
-			}
-		}
-	});
-	hit
-}
-/// F39: an EQ gain so low that 10^(gain/40) underflows to 0 in f64 (then k = 1/(q*a) or g/sqrt(a) divides by 0)
-fn neut_eq_gain(sc: &mut Scene) -> bool {
-	let mut hit = false;
-	for_each_fx(sc, &mut |fx| {
-		if let Fx::Eq { gain, .. } = fx {
-			if 10.0f64.powf(*gain as f64 / 40.0) == 0.0 {
-				*gain = -12.0;
-				hit = true;
-			}
-		}
-	});
-	for op in sc.ops.iter_mut() {
-		if let Op::Cmd(c) = op {
-			if 10.0f64.powf(c.db as f64 / 40.0) == 0.0 {
-				c.db = -12.0;
-				hit = true;
-			}
-		}
-	}
 	hit
 }
 /// F40: seek_to / seek_by far beyond a loop region (Transport::seek_to subtracts the loop length once per iteration)
@@ -1226,7 +1024,7 @@ fn neut_rate_cost(sc: &mut Scene) -> bool {
 /// F7: a clock speed whose ticks-per-chunk reaches 2^53 (or is infinite)
 fn neut_clock(sc: &mut Scene) -> bool {
 	let mut hit = false;
-	let dt = sc.ibs as f64 / sc.sr as f64;
+	let dt = sc.ibs as f64 / min_sr(sc) as f64;
 	for_each_speed(sc, &mut |s| {
 		let t = s.as_ticks_per_second() * dt;
 		if t >= TWO53 {
@@ -1236,23 +1034,57 @@ fn neut_clock(sc: &mut Scene) -> bool {
 	});
 	hit
 }
+/// F45: a sub-track with a Delay or Reverb effect (or a send track: ours always carry a reverb) that is
+/// still queued (no callback since it was added) when the device sample rate changes to a different
+/// value: the first callback after the change re-synchronises it in `on_start_processing`, and
+/// `Delay / Reverb::on_change_sample_rate` allocates the new lines there.  The scene handed in ends with
+/// the failing callback; only a rate change with no other callback between it and that last operation
+/// qualifies, and exactly those rate changes are removed.
+fn has_lines(op: &Op) -> bool {
+	match op {
+		Op::AddSub(s) => s.fx.iter().any(|f| matches!(f, Fx::Delay { .. } | Fx::Reverb { .. })),
+		Op::AddSend { .. } => true,
+		_ => false,
+	}
+}
+/// indices of the rate changes that find a line-owning track still queued (initialised at another rate)
+fn resync_rate_changes(ops: &[Op], sr0: u32) -> Vec<usize> {
+	let mut cur = sr0;
+	let mut queued_at: Vec<u32> = vec![];
+	let mut hits = vec![];
+	for (i, op) in ops.iter().enumerate() {
+		match op {
+			Op::Callback { .. } => queued_at.clear(),
+			Op::RateChange { sr } => {
+				if queued_at.iter().any(|q| *q != *sr) {
+					hits.push(i);
+				}
+				cur = *sr;
+			}
+			op if has_lines(op) => queued_at.push(cur),
+			_ => {}
+		}
+	}
+	hits
+}
+fn neut_resync(sc: &mut Scene) -> bool {
+	let n = sc.ops.len();
+	if n == 0 || !matches!(sc.ops[n - 1], Op::Callback { .. }) {
+		return false;
+	}
+	// only a change that the LAST operation (the failing callback) is the first callback after
+	let remove: Vec<usize> = resync_rate_changes(&sc.ops, sc.sr).into_iter().filter(|i| !sc.ops[*i + 1..n - 1].iter().any(|o| matches!(o, Op::Callback { .. }))).collect();
+	for i in remove.iter().rev() {
+		sc.ops.remove(*i);
+	}
+	!remove.is_empty()
+}
 fn classes() -> Vec<Class> {
 	let c = |name, detail, kinds, neutralise| Class { name, detail, kinds, neutralise };
-	const NAN: &[&str] = &["nan"];
 	const HANG: &[&str] = &["hang"];
 	vec![
-		c(HZ_SAMPLES, "", NAN, neut_samples),
-		c(HZ_GAIN, "", NAN, neut_gain),
-		c(HZ_CHAIN, "", NAN, neut_chain),
-		c(HZ_EASING, "", &["nan", "hang"], neut_easing),
-		c(HZ_COMP_THR, "", NAN, neut_comp_thr),
-		c(HZ_EQ_GAIN, "", NAN, neut_eq_gain),
-		c(HZ_PARAM, "compressor ratio <= 0 (or >= 1e15: a tween from it cancels to 0)", NAN, neut_comp_ratio),
-		c(HZ_PARAM, "reverb feedback outside [0,1]", NAN, neut_reverb_fb),
-		c(HZ_PARAM, "reverb damping outside [0,1]", NAN, neut_reverb_damp),
-		c(HZ_PARAM, "reverb stereo width outside [0,1]", NAN, neut_reverb_width),
-		c(HZ_PARAM, "delay feedback >= 0 dB", NAN, neut_delay_fb),
-		c(HZ_PARAM, "reverb feedback / damping / width outside [0,1] set through its handle", NAN, neut_cmd_unit),
+		c(HZ_RESYNC, "", &["alloc"], neut_resync),
+		c(HZ_EASING, "", HANG, neut_easing),
 		c(HZ_SEEK, "", HANG, neut_seek),
 		c(HZ_CLOCK, "", HANG, neut_clock),
 		c(HZ_RATE, "", HANG, neut_rate),
@@ -1417,24 +1249,10 @@ impl<'a> Gen<'a> {
 	fn db(&mut self) -> f32 {
 		if self.boundary && self.r.chance(1, 5) {
 			let v = *self.r.pick(&[-60.0f32, -59.999996, -60.000004, -100.0, -1e30, 0.0, -0.0, 6.0, 24.0, 100.0, 700.0, 1000.0, 3e38, -3e38, 1e-40]);
-			if amp(v).is_infinite() && !self.on(HZ_GAIN) {
-				return 24.0;
-			}
-			if v == 700.0 && !self.on(HZ_CHAIN) {
-				return 100.0;
-			}
 			v
 		} else {
 			(self.r.unit_f64() * 72.0 - 66.0) as f32
 		}
-	}
-	/// a decibel value that may reach an EQ gain
-	fn eq_db(&mut self) -> f32 {
-		let v = self.db();
-		if 10.0f64.powf(v as f64 / 40.0) == 0.0 && !self.on(HZ_EQ_GAIN) {
-			return -100.0;
-		}
-		v
 	}
 	fn mix(&mut self) -> f32 {
 		if self.boundary && self.r.chance(1, 4) {
@@ -1533,10 +1351,7 @@ impl<'a> Gen<'a> {
 			3 => 3,
 			_ => self.r.below(300) as usize + 4,
 		};
-		let mut kind = if self.boundary { *self.r.pick(&[0u8, 1, 2, 3, 4, 5, 6, 7, 7, 8]) } else { *self.r.pick(&[0u8, 1, 2, 3, 7, 0, 3]) };
-		if kind == 6 && !self.on(HZ_SAMPLES) {
-			kind = 5;
-		}
+		let kind = if self.boundary { *self.r.pick(&[0u8, 1, 2, 3, 4, 5, 6, 7, 7, 8]) } else { *self.r.pick(&[0u8, 1, 2, 3, 7, 0, 3]) };
 		FramesSpec { n, kind, seed: self.r.next() }
 	}
 	fn pos(&mut self) -> [f32; 3] {
@@ -1545,7 +1360,7 @@ impl<'a> Gen<'a> {
 	fn fx(&mut self, allow_link: bool) -> Fx {
 		match self.r.below(9) {
 			0 => Fx::Filter { mode: *self.r.pick(&[FilterMode::LowPass, FilterMode::BandPass, FilterMode::HighPass, FilterMode::Notch]), cutoff: self.freq(), linked: allow_link && self.r.chance(1, 3), res: self.unit(), mix: self.mix() },
-			1 => Fx::Eq { kind: *self.r.pick(&[EqFilterKind::Bell, EqFilterKind::LowShelf, EqFilterKind::HighShelf]), f: self.freq(), gain: self.eq_db(), q: 0.1 + self.unit() * 4.0 },
+			1 => Fx::Eq { kind: *self.r.pick(&[EqFilterKind::Bell, EqFilterKind::LowShelf, EqFilterKind::HighShelf]), f: self.freq(), gain: self.db(), q: 0.1 + self.unit() * 4.0 },
 			2 => {
 				let time = match self.r.below(if self.boundary { 5 } else { 3 }) {
 					0 => Duration::from_micros(self.r.below(30_000) + 100),
@@ -1561,7 +1376,7 @@ impl<'a> Gen<'a> {
 			}
 			3 => Fx::Reverb { fb: self.unit(), damp: self.unit(), width: self.unit(), mix: self.mix() },
 			4 => {
-				let thr = if self.boundary && self.r.chance(1, 3) { *self.r.pick(&[0.0, -0.0, if self.on(HZ_COMP_THR) { -1e300 } else { -1e30 }, if self.on(HZ_COMP_THR) { 1e300 } else { 1e30 }, -60.0, 10.0]) } else { -self.r.unit_f64() * 40.0 };
+				let thr = if self.boundary && self.r.chance(1, 3) { *self.r.pick(&[0.0, -0.0, -1e300, 1e300, -60.0, 10.0]) } else { -self.r.unit_f64() * 40.0 };
 				let ratio = if self.boundary && self.r.chance(1, 3) { *self.r.pick(&[0.0, -0.0, 1.0, -1.0, 1e300, 1e-300, 0.5]) } else { 1.0 + self.r.unit_f64() * 10.0 };
 				Fx::Compressor { thr, ratio, attack: self.dur(), release: self.dur(), makeup: self.db().min(24.0), mix: self.mix() }
 			}
@@ -1601,7 +1416,7 @@ impl<'a> Gen<'a> {
 		Op::Callback { frames, ch }
 	}
 	fn cmd(&mut self) -> CmdSpec {
-		CmdSpec { sel: self.r.next(), which: self.r.next(), tw: self.tw(), db: self.eq_db(), rate: self.rate(), pan: self.pan(), u: self.unit(), seek: self.seek(), mixv: self.mix(), speed: self.clock_speed(), freq: self.freq(), pos: self.pos() }
+		CmdSpec { sel: self.r.next(), which: self.r.next(), tw: self.tw(), db: self.db(), rate: self.rate(), pan: self.pan(), u: self.unit(), seek: self.seek(), mixv: self.mix(), speed: self.clock_speed(), freq: self.freq(), pos: self.pos() }
 	}
 	fn sub(&mut self) -> SubSpec {
 		let n = self.r.below(3) as usize;
@@ -1616,9 +1431,12 @@ impl<'a> Gen<'a> {
 			parent: if self.r.chance(1, 3) { Some(self.r.next()) } else { None },
 		}
 	}
+	fn device_rate(&mut self) -> u32 {
+		if self.boundary { *self.r.pick(&[8000u32, 22050, 44100, 48000, 96000, 192000, 1000, 1, 100]) } else { *self.r.pick(&[8000u32, 22050, 44100, 48000, 96000, 192000]) }
+	}
 	fn header(&mut self) -> Scene {
 		let boundary = self.boundary;
-		let sr = if boundary { *self.r.pick(&[8000u32, 22050, 44100, 48000, 96000, 192000, 1000, 1, 100]) } else { *self.r.pick(&[8000u32, 22050, 44100, 48000, 96000, 192000]) };
+		let sr = self.device_rate();
 		let ibs = *self.r.pick(&[1usize, 2, 7, 16, 64, 128, 256]);
 		let z = if boundary { 0 } else { 1 };
 		let caps = [self.r.below(5) as usize + 2 * z, self.r.below(3) as usize + z, self.r.below(3) as usize + z, self.r.below(4) as usize + z, self.r.below(2) as usize + z];
@@ -1629,7 +1447,8 @@ impl<'a> Gen<'a> {
 		Scene { sr, ibs, caps, main_vol, main_cap, main_fx, ops: vec![] }
 	}
 	fn op(&mut self, sc: &Scene) -> Op {
-		match self.r.below(22) {
+		match self.r.below(23) {
+			22 => Op::RateChange { sr: self.device_rate() },
 			0 | 1 | 2 => Op::Play(self.play(sc.sr)),
 			3 | 4 => Op::AddSub(self.sub()),
 			5 => Op::AddSend { vol: self.db(), probe: self.r.chance(1, 2) },
@@ -1675,6 +1494,25 @@ impl<'a> Gen<'a> {
 			let op = self.op(&sc);
 			sc.ops.push(op);
 		}
+		// most rate changes should find the tracks already owned by the renderer (F45 ends a scene early)
+		for i in resync_rate_changes(&sc.ops, sc.sr).into_iter().rev() {
+			if self.r.chance(3, 4) {
+				let c = self.callback(sc.ibs);
+				sc.ops.insert(i, c);
+			}
+		}
+		if !self.on(HZ_RESYNC) {
+			// F45 not listed: no rate change while a track with delay / reverb lines is still queued
+			loop {
+				let hits = resync_rate_changes(&sc.ops, sc.sr);
+				match hits.first() {
+					Some(i) => {
+						sc.ops.remove(*i);
+					}
+					None => break,
+				}
+			}
+		}
 		sc
 	}
 
@@ -1684,7 +1522,7 @@ impl<'a> Gen<'a> {
 		sc.caps = [4, 2, 2, 3, 1];
 		sc.main_cap = 4;
 		let ibs = sc.ibs;
-		let which = self.r.below(7);
+		let which = self.r.below(8);
 		let short_tw = |g: &mut Gen| Tw { st: St::Immediate, dur: Duration::from_nanos(g.r.below(6) * 1_000_000_000 / sc.sr as u64), easing: Easing::Linear };
 		let cb = |g: &mut Gen, ops: &mut Vec<Op>, n: u64| {
 			for _ in 0..n {
@@ -1806,6 +1644,26 @@ impl<'a> Gen<'a> {
 				ops.push(Op::AddProbeMod { len: 0 });
 				cb(self, &mut ops, 1);
 			}
+			6 => {
+				// the device sample rate changes under tracks with delay / reverb lines: owned ones are told at
+				// once (outside the callback), queued ones re-synchronise in the next callback (F45)
+				let short = Duration::from_micros(self.r.below(3000) + 50);
+				let fxs = vec![Fx::Delay { time: short, fb: -12.0, mix: 0.5, fbfx: if self.r.chance(1, 3) { Some((800.0, 0.3)) } else { None } }, Fx::Reverb { fb: 0.6, damp: 0.4, width: 0.8, mix: 0.3 }, Fx::Probe];
+				let nfx = self.r.range(1, 3) as usize;
+				ops.push(Op::AddSub(SubSpec { vol: -6.0, cap: 2, sub_cap: 1, persist: false, fx: fxs[..nfx].to_vec(), keep_fx_handles: false, send: None, parent: None }));
+				let p = plain(self, 300, Some(0));
+				ops.push(Op::Play(p));
+				cb(self, &mut ops, 2);
+				for _ in 0..self.r.range(1, 3) {
+					ops.push(Op::RateChange { sr: self.device_rate() });
+					cb(self, &mut ops, 2);
+				}
+				if self.on(HZ_RESYNC) && self.r.chance(1, 2) {
+					ops.push(Op::AddSub(SubSpec { vol: -6.0, cap: 2, sub_cap: 1, persist: false, fx: vec![fxs[self.r.below(2) as usize].clone()], keep_fx_handles: false, send: None, parent: if self.r.chance(1, 2) { Some(0) } else { None } }));
+					ops.push(Op::RateChange { sr: self.device_rate() });
+					cb(self, &mut ops, 2);
+				}
+			}
 			_ => {
 				// send tracks and routes; the send track goes away while it is still routed to
 				ops.push(Op::AddSend { vol: self.db(), probe: true });
@@ -1860,22 +1718,24 @@ fn plain_play(sr: u32, n: usize, kind: u8) -> PlaySpec {
 fn plain_cmd() -> CmdSpec {
 	CmdSpec { sel: 0, which: 0, tw: Tw { st: St::Immediate, dur: Duration::from_millis(10), easing: Easing::Linear }, db: 0.0, rate: 1.0, pan: 0.0, u: 0.5, seek: 0.01, mixv: 0.5, speed: ClockSpeed::TicksPerSecond(2.0), freq: 1000.0, pos: [0.0; 3] }
 }
-fn corpus() -> Vec<(&'static str, &'static str, Scene)> {
+/// `Some(class)`: witness of a listed finding (must fail and be attributed to exactly that class);
+/// `None`: regression scene of a repaired finding (must render finite, well-formed output)
+fn corpus() -> Vec<(Option<&'static str>, &'static str, Scene)> {
 	let cb = Op::Callback { frames: 64, ch: 2 };
 	let mut v = vec![];
 	// F5: sound volume +1000 dB on a sound containing a zero sample (inf * 0)
 	let mut s = base_scene(48000, 64);
 	s.ops = vec![Op::Play(PlaySpec { vol: 1000.0, ..plain_play(48000, 100, 7) }), cb.clone()];
-	v.push((HZ_GAIN, "sound volume +1000 dB on a silent sound", s));
+	v.push((None, "F5: sound volume +1000 dB on a silent sound", s));
 	// F29: frames alternating +-3e38 at rate 1
 	let mut s = base_scene(48000, 64);
 	s.ops = vec![Op::Play(plain_play(48000, 100, 6)), cb.clone()];
-	v.push((HZ_SAMPLES, "static sound whose frames alternate +3e38 / -3e38", s));
+	v.push((None, "F29: static sound whose frames alternate +3e38 / -3e38", s));
 	// F33: compressor ratio 0 on the main track, silence
 	let mut s = base_scene(48000, 64);
 	s.main_fx = vec![Fx::Compressor { thr: -24.0, ratio: 0.0, attack: Duration::from_millis(10), release: Duration::from_millis(100), makeup: 0.0, mix: 1.0 }];
 	s.ops = vec![cb.clone()];
-	v.push((HZ_PARAM, "CompressorBuilder::new().ratio(0.0) on the main track, silence", s));
+	v.push((None, "F33: CompressorBuilder::new().ratio(0.0) on the main track, silence", s));
 	// F36: easing with a negative power
 	let mut s = base_scene(48000, 64);
 	s.ops = vec![
@@ -1883,7 +1743,7 @@ fn corpus() -> Vec<(&'static str, &'static str, Scene)> {
 		Op::Cmd(CmdSpec { sel: 0, which: 1, tw: Tw { st: St::Immediate, dur: Duration::from_secs(1), easing: Easing::InPowi(-40) }, ..plain_cmd() }),
 		cb.clone(),
 	];
-	v.push((HZ_EASING, "track.resume(Tween { duration: 1 s, easing: InPowi(-40) }) on an empty sub-track", s));
+	v.push((None, "F36 (NaN half): track.resume(Tween { duration: 1 s, easing: InPowi(-40) }) on an empty sub-track", s));
 	// F37: two finite gains whose product overflows, panned hard left (inf * 0 on the right)
 	let mut s = base_scene(48000, 64);
 	s.main_fx = vec![Fx::Pan(-1.0)];
@@ -1892,33 +1752,66 @@ fn corpus() -> Vec<(&'static str, &'static str, Scene)> {
 		Op::Play(PlaySpec { vol: 700.0, on: Some(0), ..plain_play(48000, 100, 1) }),
 		cb.clone(),
 	];
-	v.push((HZ_CHAIN, "sound volume +700 dB on a track of volume +700 dB, hard-left panning effect on the main track", s));
+	v.push((None, "F37: sound volume +700 dB on a track of volume +700 dB, hard-left panning effect on the main track", s));
 	// F38: compressor threshold -1e300 (f32: -inf) on a non-silent signal
 	let mut s = base_scene(48000, 64);
 	s.main_fx = vec![Fx::Compressor { thr: -1e300, ratio: 2.0, attack: Duration::from_millis(10), release: Duration::from_millis(100), makeup: 0.0, mix: 1.0 }];
 	s.ops = vec![Op::Play(plain_play(48000, 100, 1)), cb.clone()];
-	v.push((HZ_COMP_THR, "CompressorBuilder::new().threshold(-1e300) on a non-silent signal", s));
+	v.push((None, "F38: CompressorBuilder::new().threshold(-1e300) on a non-silent signal", s));
 	// F39: EQ gain -1e30 dB
 	let mut s = base_scene(48000, 64);
 	s.main_fx = vec![Fx::Eq { kind: EqFilterKind::Bell, f: 1000.0, gain: -1e30, q: 1.0 }];
 	s.ops = vec![Op::Play(plain_play(48000, 100, 1)), cb.clone()];
-	v.push((HZ_EQ_GAIN, "EqFilterBuilder::new(Bell, 1000.0, Decibels(-1e30), 1.0)", s));
+	v.push((None, "F39: EqFilterBuilder::new(Bell, 1000.0, Decibels(-1e30), 1.0)", s));
+	// F33, the other parameters: reverb stereo width 2.0 and feedback 1e300, delay feedback +24 dB on one frame
+	let mut s = base_scene(48000, 64);
+	s.main_fx = vec![Fx::Reverb { fb: 1e300, damp: -1.0, width: 2.0, mix: 0.5 }, Fx::Delay { time: Duration::ZERO, fb: 24.0, mix: 0.5, fbfx: None }];
+	s.ops = vec![Op::Play(plain_play(48000, 200, 1)), cb.clone(), cb.clone(), cb.clone()];
+	v.push((None, "F33: reverb feedback 1e300 / damping -1 / width 2 and delay feedback +24 dB over a one-frame line", s));
+	// F45: a track with a delay is still queued when the device rate changes
+	let mut s = base_scene(48000, 64);
+	s.ops = vec![
+		Op::AddSub(SubSpec { vol: 0.0, cap: 2, sub_cap: 1, persist: false, fx: vec![Fx::Delay { time: Duration::from_millis(5), fb: -12.0, mix: 0.5, fbfx: None }], keep_fx_handles: false, send: None, parent: None }),
+		Op::RateChange { sr: 44100 },
+		cb.clone(),
+	];
+	v.push((Some(HZ_RESYNC), "add_sub_track(with a Delay); device rate 48000 -> 44100; one callback", s));
+	// ... while a track the renderer already owns is told outside the callback: no allocation in any callback
+	let mut s = base_scene(48000, 64);
+	s.ops = vec![
+		Op::AddSub(SubSpec { vol: 0.0, cap: 2, sub_cap: 1, persist: false, fx: vec![Fx::Delay { time: Duration::from_millis(1), fb: -12.0, mix: 0.5, fbfx: None }, Fx::Reverb { fb: 0.5, damp: 0.5, width: 0.5, mix: 0.5 }], keep_fx_handles: false, send: None, parent: None }),
+		Op::Play(PlaySpec { on: Some(0), ..plain_play(48000, 300, 3) }),
+		cb.clone(),
+		Op::RateChange { sr: 192000 },
+		cb.clone(),
+		Op::RateChange { sr: 8000 },
+		cb.clone(),
+	];
+	v.push((None, "owned track with Delay and Reverb across rate changes 48000 -> 192000 -> 8000", s));
+	// F36, hang half: the same easing on a playback rate
+	let mut s = base_scene(48000, 64);
+	s.ops = vec![
+		Op::Play(PlaySpec { looped: Some((0.0, 0.001)), ..plain_play(48000, 100, 1) }),
+		Op::Cmd(CmdSpec { sel: 0, which: 4, rate: 2.0, tw: Tw { st: St::Immediate, dur: Duration::from_secs(1), easing: Easing::InPowi(-40) }, ..plain_cmd() }),
+		cb.clone(),
+	];
+	v.push((Some(HZ_EASING), "sound.set_playback_rate(2.0, Tween { duration: 1 s, easing: InPowi(-40) }) on a looping sound", s));
 	// F40: seek far beyond a loop region
 	let mut s = base_scene(48000, 64);
 	s.ops = vec![Op::Play(PlaySpec { looped: Some((0.0, 0.001)), ..plain_play(48000, 100, 1) }), Op::Cmd(CmdSpec { which: 6, seek: 1e300, ..plain_cmd() }), cb.clone()];
-	v.push((HZ_SEEK, "sound.seek_to(1e300) on a sound with a loop region", s));
+	v.push((Some(HZ_SEEK), "sound.seek_to(1e300) on a sound with a loop region", s));
 	// F7
 	let mut s = base_scene(48000, 64);
 	s.ops = vec![Op::AddClock { speed: ClockSpeed::SecondsPerTick(0.0), start: true }, cb.clone(), cb.clone()];
-	v.push((HZ_CLOCK, "add_clock(SecondsPerTick(0.0)); start; callbacks", s));
+	v.push((Some(HZ_CLOCK), "add_clock(SecondsPerTick(0.0)); start; callbacks", s));
 	// F8
 	let mut s = base_scene(48000, 64);
 	s.ops = vec![Op::Play(PlaySpec { rate: 1e300, looped: Some((0.0, 0.001)), ..plain_play(48000, 100, 1) }), cb.clone()];
-	v.push((HZ_RATE, "play(sound with playback_rate 1e300 and a loop region); one callback", s));
+	v.push((Some(HZ_RATE), "play(sound with playback_rate 1e300 and a loop region); one callback", s));
 	// F34
 	let mut s = base_scene(1, 64);
 	s.ops = vec![Op::Play(PlaySpec { rate: 1e6, ssr: 22050, looped: Some((0.0, 0.001)), ..plain_play(22050, 100, 1) }), cb.clone()];
-	v.push((HZ_RATE_COST, "sound at 22050 Hz with playback_rate 1e6 on a 1 Hz device", s));
+	v.push((Some(HZ_RATE_COST), "sound at 22050 Hz with playback_rate 1e6 on a 1 Hz device", s));
 	v
 }
 
@@ -1950,7 +1843,8 @@ fn out_stage_cases(s: &mut Session, rng: &mut Rng, count: u64) {
 		s.case("out_stage", term.clone(), &obs, Some(term.clone()));
 		// the layout clauses, directly
 		for (k, fr) in frames.iter().enumerate() {
-			let (l, r) = (fr.left.clamp(-1.0, 1.0), fr.right.clamp(-1.0, 1.0));
+			let fc = |x: f32| if x.is_nan() { 0.0 } else { x.clamp(-1.0, 1.0) };
+			let (l, r) = (fc(fr.left), fc(fr.right));
 			let o = &out[k * ch as usize..(k + 1) * ch as usize];
 			if ch == 1 {
 				if o[0].to_bits() != ((l + r) / 2.0).to_bits() {
@@ -2023,17 +1917,27 @@ pub fn run(args: &Args) {
 		"From Coq Require Import ZArith List. Import ListNotations. Open Scope Z_scope.\nFrom KV Require Import Base.Corr C01.Run.",
 		"run",
 		150,
-		"scenes (pure data, printed in full on failure): an AudioManager with random capacities / internal buffer / sample rate, main-track effects, then operations (play static sounds with drawn volume, panning, rate incl. negative, loop, slice, start position, fade-in, delayed / clock start; streaming sounds over an in-memory decoder (documented-range values only); probe sounds that finish; sub / send / spatial tracks with every built-in effect incl. nested delay feedback effects; clocks; LFOs, tweeners, probe modulators linked to parameters; listeners; commands on random handles incl. effect handles with random tweens; handle drops; device callbacks of 0..3b+40 frames and 1..8 channels) in three streams: well-formed (documented ranges), boundary (0, -0, denormals, +-1e300, -60 dB, zero / huge durations, empty / inverted regions, out-of-range slices, capacity 0) and directed scenarios (finish while paused, backwards through loops, churn, clock-timed starts, short tweens, finishing modulators, vanishing send tracks); the Renderer runs on its own audio thread; observed per callback: panic, hang (watchdog), heap allocations / frees on the audio thread, thread of every probe Drop, on_start_processing count and chunk sequence, every sample written, finite, in [-1,1], extra channels silent; model cases: output stage on a unit-gain sound, output stage on the recorded mixer bus, callback step list (allocations, frees, starts, chunk lengths); distinct = scene seed; non-trivial = at least one callback rendered",
+		"scenes (pure data, printed in full on failure): an AudioManager with random capacities / internal buffer / sample rate, main-track effects, then operations (play static sounds with drawn volume, panning, rate incl. negative, loop, slice, start position, fade-in, delayed / clock start; streaming sounds over an in-memory decoder (documented-range values only); probe sounds that finish; sub / send / spatial tracks with every built-in effect incl. nested delay feedback effects; clocks; LFOs, tweeners, probe modulators linked to parameters; listeners; commands on random handles incl. effect handles with random tweens; handle drops; device sample-rate changes between callbacks; device callbacks of 0..3b+40 frames and 1..8 channels) in three streams: well-formed (documented ranges), boundary (0, -0, denormals, +-1e300, -60 dB, zero / huge durations, empty / inverted regions, out-of-range slices, capacity 0) and directed scenarios (finish while paused, backwards through loops, churn, clock-timed starts, short tweens, finishing modulators, vanishing send tracks); the Renderer runs on its own audio thread; observed per callback: panic, hang (watchdog), heap allocations / frees on the audio thread, thread of every probe Drop, on_start_processing count and chunk sequence, every sample written, finite, in [-1,1], extra channels silent; model cases: output stage on a unit-gain sound, output stage on the recorded mixer bus, callback step list (allocations, frees, starts, chunk lengths); distinct = scene seed; non-trivial = at least one callback rendered",
 	);
 	out_stage_cases(&mut s, &mut rng, n / 3);
 	let mut hangs_left = (if args.thorough { 150u32 } else { 12 }) * args.budget_mul as u32;
 	let wd = 2.5;
-	// ---- witnesses of the findings
+	// ---- witnesses of the listed findings, regression scenes of the repaired ones
 	for (class, desc, sc) in corpus() {
-		s.eval_only("corpus");
-		let (_, f) = outcome(&sc, wd, &mut hangs_left);
-		match f {
-			Some(f) => {
+		s.eval_only(if class.is_some() { "corpus_witness" } else { "corpus_regression" });
+		let (r, f) = outcome(&sc, wd, &mut hangs_left);
+		match (class, f) {
+			(None, None) => {
+				if r.map(|r| r.callbacks).unwrap_or(0) == 0 {
+					s.fail(format!("regression scene ({desc})"), "rendered no callback".into(), None);
+				}
+			}
+			(None, Some(f)) => {
+				// a repaired finding is back (or was never repaired in this tree): a plain violation
+				let v = attribute(&sc, f, wd, &mut hangs_left);
+				report(&mut s, &format!("regression scene ({desc})"), v);
+			}
+			(Some(class), Some(f)) => {
 				let v = attribute(&sc, f, wd, &mut hangs_left);
 				if v.class == Some(class) && listed.contains(class) {
 					report(&mut s, &format!("witness ({desc})"), v);
@@ -2045,7 +1949,7 @@ pub fn run(args: &Args) {
 					report(&mut s, &format!("witness ({desc}) expected class {class}"), v);
 				}
 			}
-			None => {
+			(Some(class), None) => {
 				s.notes.push(format!("witness of {class} ({desc}) no longer fails"));
 				s.count("corpus_not_reproduced");
 			}
